@@ -386,6 +386,16 @@ impl Check for C10 {
                         cands.push(format!("Is {}", name));
                         cands.push(format!("is{}", name));
                         cands.push(name.clone());
+                        // a separator at every position of the name (no normalisation of the name)
+                        let cs: Vec<char> = name.chars().collect();
+                        for pos in 0..=cs.len() {
+                            for sep in ['_', ' ', '-', '\t'] {
+                                let mut t: String = cs[..pos].iter().collect();
+                                t.push(sep);
+                                t.extend(&cs[pos..]);
+                                cands.push(format!("Is{}", t));
+                            }
+                        }
                         cands.retain(|c| !(c.starts_with("Is") && ucd.known_block(&c[2..])) && !CATS.contains(&c.as_str()));
                     } else {
                         let cat = CATS[(i - nb) as usize];
@@ -394,18 +404,25 @@ impl Check for C10 {
                         cands.push(format!("{}x", cat));
                         cands.push(format!(" {}", cat));
                         cands.push("Cs".to_string());
+                        for sep in ['_', ' ', '-', '\t'] {
+                            cands.push(format!("{}{}", cat, sep));
+                            if cat.len() == 2 {
+                                cands.push(format!("{}{}{}", &cat[..1], sep, &cat[1..]));
+                            }
+                        }
                         cands.push("".to_string());
                         cands.retain(|c| !CATS.contains(&c.as_str()));
                     }
                     for c in cands {
-                        for k in ["p", "P"] {
-                            let pat = format!("\\{}{{{}}}", k, c);
+                        for (k, flags) in [("p", ""), ("P", ""), ("[p", ""), ("[p", "x"), ("[P", "x")] {
+                            // bare, and inside a character group (where flag x keeps whitespace)
+                            let pat = if k.starts_with('[') { format!("[\\{}{{{}}}]", &k[1..], c) } else { format!("\\{}{{{}}}", k, c) };
                             out.inc("states");
                             out.inc("validated");
-                            match imp::compile(&pat, "", false) {
+                            match imp::compile(&pat, flags, false) {
                                 Out::Err(EK::Syntax) => out.inc("nontrivial"),
                                 o if o.is_crash() => out.inc("inconclusive_crash"),
-                                o => out.fail("C10", &Case::new("NAME", &pat, "").api("compile"), "UnknownNameAccepted", "Err(Syntax)", &format!("{:?}", o.map(|_| ())), "unknown category or block name"),
+                                o => out.fail("C10", &Case::new("NAME", &pat, flags).api("compile"), "UnknownNameAccepted", "Err(Syntax)", &format!("{:?}", o.map(|_| ())), "unknown category or block name"),
                             }
                         }
                     }
